@@ -132,6 +132,38 @@ def _eval_cdf(ctx, case, fam, way, d, dist, x, extra="", tol=(1e-9, 1e-12)):
                      "cdf is not the integral of the documented density (product over independent components)", exp, v)
 
 
+def _eval_gaussian_cov_cdf(ctx, case, way, d, dist, x, mean, extra):
+    """every input form denotes ONE distribution: the full covariance the object computes (and integrates for its cdf)
+    is the inverse of the canonical precision of the specification; cdf = scipy's integral of that density"""
+    from cuqiverif import families_common as fc
+    import scipy.stats as sps
+    if case.get("rank") != d or "prec" not in case:
+        return
+    P = fc.mat(case["prec"])
+    cov = np.linalg.inv(P)
+    st, c, _ = fc.call(lambda: dist.compute_cov())
+    ctx.case(("gauss_cov", fc.case_id(case), way, extra), facet="gauss_cov")
+    if st == "raise":
+        ctx.observations["compute_cov_raises"] = ctx.observations.get("compute_cov_raises", 0) + 1
+        return
+    c = np.asarray(c.todense() if hasattr(c, "todense") else c, dtype=float)
+    if c.shape != cov.shape or not np.allclose(c, cov, rtol=1e-9, atol=1e-12):
+        ctx.mismatch(_sig("compute_cov", "Gaussian", way, d, case, extra), case,
+                     "the covariance computed from this input form is not the inverse of the precision of the one distribution all "
+                     "input forms denote", cov, c)
+        return
+    if d >= 2:
+        st, v, _ = fc.call(lambda: dist.cdf(np.array(x)))
+        if st == "raise":
+            return
+        exp = float(sps.multivariate_normal.cdf(np.array(x), np.array(mean), cov))
+        got = fc.scalar_of(v)
+        ctx.case(("gauss_cdf", fc.case_id(case), way, extra), facet="cdf")
+        if got is None or abs(got - exp) > 5e-4:
+            ctx.mismatch(_sig("cdf", "Gaussian", way, d, case, extra), case,
+                         "cdf is not the integral of the density of the distribution this input form denotes", exp, v)
+
+
 # ------------------------------------------------------------------ generic families
 def check_family(ctx, un, case):
     from cuqiverif import families_common as fc
@@ -239,6 +271,7 @@ def check_gaussian(ctx, un, case):
                             # scipy integrates the multivariate cdf numerically (abseps 1e-5)
                             _eval_cdf(ctx, case, "Gaussian", way, d, dist, x, extra=extra,
                                       tol=(1e-9, 1e-12) if d == 1 else (0.0, 2e-4))
+                            _eval_gaussian_cov_cdf(ctx, case, way, d, dist, x, mean, extra)
     # callable parameters conditioned later (one per form, dense data)
     for inp in case["inputs"]:
         if inp["shape"] != "dense":
